@@ -110,7 +110,7 @@ def run(ctx):
     rng = ctx.rng
     cterms, cmeta = [], []
     ncases = ctx.n(1500, 40000)
-    outcomes = {"conflict": 0, "serial": 0, "merged": 0, "skipped-base-unsound": 0}
+    outcomes = {"conflict": 0, "serial": 0, "merged": 0, "skipped-base-unsound": 0, "pattern-edit-vs-emptied-neighbour": 0}
     for it in range(ncases):
         kind = rng.choice(["BTree", "BTree", "TreeSet"])
         fn = rng.choice(ALL_FAMS)
@@ -124,6 +124,10 @@ def run(ctx):
         base_keys = sorted(rng.sample(range(u), nbase))
         dels = [k for k in base_keys if rng.random() < 0.25]
         t1ops, t2ops = gen_txn(rng, [k for k in base_keys if k not in dels], u), gen_txn(rng, [k for k in base_keys if k not in dels], u)
+        # a tenth of the cases are the pattern "one transaction edits a leaf, the other empties the leaf's
+        # successor (or predecessor)": the edited leaf's successor link changes underneath it
+        pattern = rng.random() < 0.1
+        pattern_ops = None
         for order in ((1, 2), (2, 1)):
             with env.sized(ml, mi):
                 st = Storage()
@@ -151,6 +155,25 @@ def run(ctx):
                 # (taken from the reader's copy: the writers' nodes must stay ghosts until their first write)
                 base_leaf_oids = {i: [o._p_oid for o in env.leaf_objects(tb)] for i in (1, 2)}
                 base_leaf_items = [leaf_items(env, o) for o in env.leaf_objects(tb)]
+                if pattern and pattern_ops is None and len(base_leaf_items) >= 2:
+                    li = rng.randrange(len(base_leaf_items) - 1)
+                    a_leaf, b_leaf = base_leaf_items[li], base_leaf_items[li + 1]
+                    if rng.random() < 0.3:
+                        a_leaf, b_leaf = b_leaf, a_leaf
+                    edit = rng.choice(["val", "del-last", "ins-gap"])
+                    if edit == "del-last" and len(a_leaf) >= 2:
+                        aops = [("del", a_leaf[-1][0])]
+                    elif edit == "ins-gap" and any(k2 - k1 > 1 for (k1, _), (k2, _) in zip(a_leaf, a_leaf[1:])):
+                        g = [k1 + 1 for (k1, _), (k2, _) in zip(a_leaf, a_leaf[1:]) if k2 - k1 > 1]
+                        aops = [("ins", rng.choice(g), 1)]
+                    else:
+                        aops = [("ins", a_leaf[-1][0], (a_leaf[-1][1] + 1) % 4)]
+                    bops = [("del", k) for k, _ in b_leaf]
+                    rng.shuffle(bops)
+                    pattern_ops = (aops, bops)
+                if pattern_ops is not None:
+                    t1ops, t2ops = pattern_ops
+                    outcomes["pattern-edit-vs-emptied-neighbour"] += 1
                 refs = {}
                 readdecl_ok = True
                 for i, ops in ((1, t1ops), (2, t2ops)):
